@@ -71,6 +71,33 @@ theorem encPrelude_coh' {s s' : St} {w w' : Writer} {hdr hdr' bytes : Nat} (hc :
        simp only [List.append_assoc]
        exact ⟨_, rfl⟩)
 
+/-- cursor, carry and `catable_header_size` in the middle of `encode_data`: either something has been
+written (cursor at `storage_[0]`, carry = tail of `w`, everything whole in `w` is header), or nothing
+has (cursor and carry untouched, `w` is the carry) -/
+def MidShape (s0 s : St) (w : Writer) (hdr : Nat) : Prop :=
+  (s.nextOut = .dyn 0 ∧ hdr = w.length / 8 ∧ s.lastBytes = (carryOf w).1 ∧ s.lastBytesBits = (carryOf w).2) ∨
+  (s.nextOut = s0.nextOut ∧ hdr = 0 ∧ w = s0.carry ∧ s.lastBytes = s0.lastBytes ∧ s.lastBytesBits = s0.lastBytesBits)
+
+theorem encMagic_shape (s : St) : MidShape s (encMagic s s.carry).1 (encMagic s s.carry).2.1 (encMagic s s.carry).2.2 := by
+  unfold encMagic
+  split
+  · exact Or.inl ⟨rfl, rfl, rfl, rfl⟩
+  · exact Or.inr ⟨rfl, rfl, rfl, rfl, rfl⟩
+
+theorem encPrelude_shape {s0 s s' : St} {w w' : Writer} {hdr hdr' bytes : Nat} (hc : MidShape s0 s w hdr)
+    (h : encPrelude s w hdr bytes = .ok (s', w', hdr')) : MidShape s0 s' w' hdr' := by
+  unfold encPrelude at h
+  simp only at h
+  split_all h
+  all_goals first
+    | (simp at h; done)
+    | (simp only [Out.ok.injEq, Prod.mk.injEq] at h; obtain ⟨rfl, rfl, rfl⟩ := h
+       rcases hc with ⟨a, b, c, d⟩ | ⟨a, b, c, d, e⟩
+       · exact Or.inl ⟨a, b, c, d⟩
+       · exact Or.inr ⟨a, b, c, d, e⟩)
+    | (simp only [Out.ok.injEq, Prod.mk.injEq] at h; obtain ⟨rfl, rfl, rfl⟩ := h
+       exact Or.inl ⟨rfl, rfl, rfl, rfl⟩)
+
 /-- what is known of the state `encMid s il` in the middle of a successful `encode_data` -/
 structure EncMidOK (s : St) (il : Bool) (s2 : St) (w : Writer) (hdr : Nat) : Prop where
   coh : Coh' s2 w hdr
@@ -87,6 +114,7 @@ structure EncMidOK (s : St) (il : Bool) (s2 : St) (w : Writer) (hdr : Nat) : Pro
   latch : s2.isLastBlockEmitted = (s.isLastBlockEmitted || il)
   totalOut : s2.totalOut = s.totalOut
   out : s2.nextOut = .dyn 0 ∨ (s2.nextOut = s.nextOut ∧ hdr = 0 ∧ s2.lastBytesBits = s.lastBytesBits)
+  shape : MidShape s s2 w hdr
 
 theorem encRest_split {m : St × Writer × Nat} {ans : Ans} {w0 : Writer} {bytes : Nat} {il ff res : Bool} {s' : St}
     (h : encRest m ans w0 bytes il ff = .ok (s', res)) :
@@ -140,7 +168,7 @@ theorem encodeData_spec {o : Oracle} {s s' : St} {site : Nat} {il ff : Bool} {re
         rw [a.2.1, b.2.1, m3, e3]
       refine ⟨hcoh2, p1.trans (m1.trans e1), p3.trans (m5.trans e5), ?_, by rw [hcl] at hml; omega, ?_,
         by rw [p4, m6]; exact e13, by rw [p4, m6]; exact e12, p6.trans (m8.trans e11), p2.trans (m4.trans e4),
-        p5.trans (m7.trans e10), ?_⟩
+        p5.trans (m7.trans e10), ?_, ?_⟩
       · rw [hw, List.drop_append_of_le_length (Nat.le_refl _), List.drop_of_length_le (Nat.le_refl _)]; rfl
       · rcases encPrelude_pos hpre with ⟨q1, q2⟩ | ⟨q1, q2⟩
         · exact Or.inl ⟨q1.trans (m2.trans e2), q2.trans (m3.trans e3)⟩
@@ -148,5 +176,10 @@ theorem encodeData_spec {o : Oracle} {s s' : St} {site : Nat} {il ff : Bool} {re
       · rcases hoc with a | ⟨a, b, c⟩
         · exact Or.inl a
         · exact Or.inr ⟨a.trans e6, b, c.trans e9⟩
+      · have hsh := encMagic_shape (encEntry s il)
+        rw [hcar] at hsh
+        rcases encPrelude_shape hsh hpre with ⟨a, b, c, d⟩ | ⟨a, b, c, d, e⟩
+        · exact Or.inl ⟨a, b, c, d⟩
+        · exact Or.inr ⟨a.trans e6, b, c.trans hcar, d.trans e8, e.trans e9⟩
 
 end BV.Stream
